@@ -127,10 +127,12 @@ def host_tables(ctx):
         base = {name: wm.r("optable", version=v, variant=var) for name, v, var in keys}
     finally:
         wm.close()
-    for hv, path in sorted(hosts.items()):
-        if path == core.MAIN_HOST:
-            continue
-        hw = Worker(path)
+    # ... and not on how the host runs: an interpreter started with -O / PYTHONOPTIMIZE=1 drops assert statements
+    runs = [(hv, path, None) for hv, path in sorted(hosts.items()) if path != core.MAIN_HOST]
+    runs.append(((0, 1), core.MAIN_HOST, {"PYTHONOPTIMIZE": "1"}))
+    runs.append(((0, 2), hosts[min(hosts)], {"PYTHONOPTIMIZE": "2"}))
+    for hv, path, xenv in runs:
+        hw = Worker(path, extra_env=xenv)
         try:
             for name, v, var in keys:
                 got = hw.r("optable", version=v, variant=var)
@@ -147,7 +149,7 @@ def host_tables(ctx):
                     rep.violation("host-table:%d.%d:%s:%s" % (hv[0], hv[1], name, diff[0]),
                                   "table %s differs between host %d.%d and the main host in %s" % (name, hv[0], hv[1], diff[:6]),
                                   {"table": name, "host": "%d.%d" % hv, "attributes": diff[:20],
-                                   "call": "vars(get_opcode_module(%r, %r)) under %s" % (tuple(v), var, path)})
+                                   "call": "vars(get_opcode_module(%r, %r)) under %s%s" % (tuple(v), var, path, " with %s" % xenv if xenv else "")})
         finally:
             hw.close()
 
